@@ -104,7 +104,7 @@ class C18(Check):
             labels = [max(l, 0) for l in labels]
         o = stream(rk, "ops")
         w = {"scale_range": 3, "scale_range_ov": 1, "scale_factor": 2, "shift": 2, "scale_factor_ov": 1, "shift_ov": 1, "revert": 3, "shuffle": 2, "mbf": 1, "split_labels": 1,
-             "split_pieces": 2, "split_wl": 1, "remove": 3, "remove_bad": 1, "concat": 2, "concat_list": 1, "copy": 1}
+             "split_pieces": 2, "split_wl": 1, "remove": 3, "remove_bad": 1, "concat": 2, "concat_list": 1, "copy": 1, "fresh_empty": 1}
         for k in list(w):
             w[k] = w[k] * o.choice([0, 1, 1, 2])
         kinds = [k for k, v in w.items() for _ in range(v)] or ["scale_range"]
@@ -227,6 +227,22 @@ class C18(Check):
                 elif k == "mbf":
                     ds.move_boundaries_to_front()
                     self.sync(ctx, ds, m, k, sig)
+                elif k == "fresh_empty":
+                    # an accumulator: a freshly created empty set (no dimension, no scaling) joins the pool and will be the receiver
+                    # or the argument of later concatenations
+                    how = op[1] % 3
+                    if how == 0:
+                        e = D.DataSet(tuple([np.array([]), np.array([])]))
+                    elif how == 1:
+                        e = D.DataSet.list_concatenate([])
+                    else:
+                        e = ds.remove_samples([])
+                        self.sync(ctx, ds, m, "remove_samples([])", sig)
+                    if not e.is_empty():
+                        ctx.violate("multiset_preserved", dict(sig, op=k), "a freshly created empty data set holds %d samples" % e.get_length())
+                    ctx.probe("fresh_empty_set")
+                    if len(pool) < 6:
+                        pool.append((e, Model([])))
                 elif k == "copy":
                     cp = ds.copy()
                     ctx.probe("copy")
@@ -335,7 +351,11 @@ class C18(Check):
                             # non-empty operand's scaling attributes
                             ne = ds if len(m.recs) > 0 else ds2
                             if res.is_scaled() != ne.is_scaled() or (ne.is_scaled() and not ne.same_scaling(res)):
-                                ctx.violate("concatenate_with_empty_operand", sig, "concatenation with an empty operand returns the samples of the non-empty operand under the empty operand's scaling attributes")
+                                # the documented shortcut ("if either data set is empty, the other one is returned") is taken when the stored
+                                # dimensions differ, i.e. for a freshly created empty set; a set emptied by remove_samples keeps its dimension
+                                # and goes through the general path (known finding) - the two cases carry different signatures
+                                ctx.violate("concatenate_with_empty_operand", dict(sig, stored_dimensions_differ=bool(ds.get_dim() != ds2.get_dim())),
+                                            "concatenation with an empty operand returns the samples of the non-empty operand under the empty operand's scaling attributes")
                                 self.unchanged(ctx, ds, before, "concatenate", sig)
                                 self.unchanged(ctx, ds2, b2, "concatenate", sig)
                                 continue
